@@ -177,7 +177,13 @@ def corpus_fix(run):
         if b2 != b1:
             run.violation(('corpus', 'fixpoint', 'bytes-differ', ''), '%s: second round trip differs from the first' % name, {'kind': 'corpus', 'name': name})
             continue
-        same = all(pyb.values_of(d0, i) == pyb.values_of(d1, i) and pyb.labels_of(d0, i) == pyb.labels_of(d1, i)
+        def same_value(x, y):
+            # strings read back padded to the field width (a foreign compressed column may carry them shorter)
+            if isinstance(x, bytes) and isinstance(y, bytes):
+                return y == x.ljust(len(y)) if len(y) >= len(x) else False
+            return type(x) == type(y) and x == y
+        same = all(pyb.labels_of(d0, i) == pyb.labels_of(d1, i) and len(pyb.values_of(d0, i)) == len(pyb.values_of(d1, i))
+                   and all(same_value(x, y) for x, y in zip(pyb.values_of(d0, i), pyb.values_of(d1, i)))
                    for i in range(d0.n_subsets.value))
         if not same:
             run.violation(('corpus', 'round-trip', 'values-differ', ''), '%s: values change over decode/encode/decode' % name, {'kind': 'corpus', 'name': name})
